@@ -2124,7 +2124,7 @@ impl Parser {
         let ty_node = children.next().unwrap();
         let ty_span = ty_node.as_span();
 
-        let mut ident = Self::ident(ident_node)?;
+        let ident = Self::ident(ident_node)?;
 
         let real_ty = Self::r#type(ty_node)?;
 
@@ -2138,9 +2138,7 @@ impl Parser {
             ));
         }
 
-        if real_ty.is_class() {
-            ident.link_force_no_inherit(input.user_data(), real_ty.clone())?;
-        }
+        // an alias names a TYPE: it declares no variable (nothing is ever stored under its name)
 
         let ty = TypeLayout::Alias(ident.name().to_owned(), Box::new(real_ty));
 
